@@ -59,7 +59,9 @@ func checkC03X(c C03Case, crossProcess bool) error {
 	if crossProcess {
 		for v := 0; v < 2; v++ {
 			qr := OneShot{Eng: EngSpec{Templates: map[string]string{"main": c.Src}}, Call: "render", Name: "main", Ctx: c.Ctx, Variant: v}
-			// not memoised across variants: different variant = different query
+			// not memoised across variants: different variant = different query. (The fresh processes
+			// inherit this process's time zone: integer and string dates carry no zone of their own
+			// and are formatted in the process's, which is configuration, not context.)
 			r, err := pristine(qr)
 			if err != nil {
 				return fmt.Errorf("harness: %v", err)
@@ -189,6 +191,9 @@ var c03MapForms = []string{
 	"{{ M }}",
 	"{{ M|merge(N)|keys|join(',') }}",
 	"{% for k, v in M|merge(N) %}{{ k }};{% endfor %}",
+	"{% for k, v in M|merge(N) %}{{ k }}={{ v is iterable ? 'it' : v }};{% endfor %}",
+	"{{ M|merge(N)|json_encode }}|{{ M|merge({})|join(',') }}",
+	"{% for k, v in merge(M, N) %}{{ k }}={{ v is iterable ? 'it' : v }};{% endfor %}",
 	"{% for k, v in M %}{% for k2, v2 in N %}{{ k }}{{ k2 }} {% endfor %}{% endfor %}",
 	"{% set out = '' %}{% for k, v in M %}{% set out = out ~ k %}{% endfor %}{{ out }}",
 	"{{ M|join('/') }}",
@@ -488,6 +493,7 @@ func checkC03Swap(c C03SwapCase) error {
 			// the opposite order in a process that has evaluated nothing before (a result remembered
 			// process-wide would otherwise answer both orders alike)
 			var err error
+			qr.TZ = "Asia/Tokyo"
 			if r, err = pristine(qr); err != nil {
 				return fmt.Errorf("harness: %v", err)
 			}
@@ -507,7 +513,7 @@ func checkC03Swap(c C03SwapCase) error {
 }
 
 func TestC03Swap(t *testing.T) {
-	r := NewRec(t, "C03", "exhaustive: pairs of values that agree in what a careless cache key would look at (the same instant in two time zones, equal numbers of different Go types, strings equal up to case or normalisation, lists and maps of equal length) under 14 filters, evaluated in one order in the test process and in the opposite order in a fresh process; non-trivial = always")
+	r := NewRec(t, "C03", "exhaustive: pairs of values that agree in what a careless cache key would look at (the same instant in two time zones, equal numbers of different Go types, strings equal up to case or normalisation, lists and maps of equal length) under 14 filters, evaluated in one order in the test process (UTC) and in the opposite order in a fresh process running in another time zone; non-trivial = always")
 	defer r.Flush()
 	r.SetExhaustive()
 	var pairs [][2]*E
